@@ -210,6 +210,11 @@ func (rc *RPCClient) SyncRequest(ctx context.Context, rpcReq *RPCRequest) (rpcRe
 		}
 		log.L(ctx).Errorf("RPC[%s] <-- [%d]: %s", rpcTraceID, res.StatusCode(), errLog)
 		err := errors.New(rpcMsg)
+		if rpcRes.Error == nil || (rpcRes.Error.Code == 0 && rpcRes.Error.Message == "") {
+			// The backend failed without supplying a JSON/RPC error (empty, text, or non-RPC JSON body).
+			// Populate one, so the caller always has a well formed JSON/RPC response to return.
+			rpcRes = RPCErrorResponse(err, rpcReq.ID, RPCCodeInternalError)
+		}
 		return rpcRes, err
 	}
 	log.L(ctx).Infof("RPC[%s] <-- %s [%d] OK (%.2fms)", rpcTraceID, rpcReq.Method, res.StatusCode(), float64(time.Since(rpcStartTime))/float64(time.Millisecond))
